@@ -121,7 +121,7 @@ func runC04(c *Ctx) {
 	c.whoMayCall("C04.4-who-may-create", "pods", []string{"Create"},
 		map[string]string{
 			"(*" + load.CtrlPkg + ".realStatefulPodControl).CreateStatefulPod": "the real pod control's create method",
-			"(" + load.K8sPkg + ".RealPodControl).createPods":                   "copied upstream helper, unreachable from the controller (checked below)",
+			"(" + load.K8sPkg + ".RealPodControl).createPods":                  "copied upstream helper, unreachable from the controller (checked below)",
 		}, 2)
 	c.unreachableFromController("C04.4-unreachable", []string{"(" + load.K8sPkg + ".RealPodControl).createPods", "(" + load.K8sPkg + ".RealPodControl).CreatePods",
 		"(" + load.K8sPkg + ".RealPodControl).CreatePodsWithGenerateName"}, nil)
@@ -235,5 +235,106 @@ func (c *Ctx) everyObservedPodIsPlaced(r *Reconcile, rule string) {
 	})
 	if n == 0 {
 		c.OK(rule, name, census.Pos(), "no iteration ends without the pod having been stored in the wanted slice or appended to the condemned slice")
+	}
+}
+
+// everyVacancyIsFilled: every desired ordinal that holds no observed pod gets a fresh pod object before the wanted
+// loop runs (the wanted loop skips empty cells). (a) the fill loop is passed on every path from the function's entry
+// to the wanted loop; (b) it walks ord = 0, 1, ... while ord < bound; (c) an iteration for an ordinal that is no slot
+// and whose cell is empty does not end without the store.
+func (c *Ctx) everyVacancyIsFilled(r *Reconcile, rule string) {
+	fn, an := r.Fn, r.An
+	info := r.FI.Pkg.TypesInfo
+	if r.WLoop == nil {
+		return
+	}
+	var store *ast.AssignStmt
+	ownNodes(r.FI.Decl.Body, func(n ast.Node) {
+		as, ok := n.(*ast.AssignStmt)
+		if !ok || len(as.Lhs) != 1 || len(as.Rhs) != 1 || contains(r.WLoop, as) {
+			return
+		}
+		ix, ok := ast.Unparen(as.Lhs[0]).(*ast.IndexExpr)
+		if !ok {
+			return
+		}
+		if id := rootIdent(ix.X); id == nil || info.ObjectOf(id) != r.W {
+			return
+		}
+		if call, ok := ast.Unparen(as.Rhs[0]).(*ast.CallExpr); ok && gf.StaticCallee(info, call) == r.Ctor {
+			store = as
+		}
+	})
+	name := r.FI.Obj.Name() + ": vacancy fill"
+	if store == nil {
+		c.Bad(rule, name, r.WLoop.Pos(), "no loop stores fresh pods into the empty cells of the wanted slice before the wanted loop")
+		return
+	}
+	outer := innermostLoop(r.FI.Decl.Body, store)
+	entry := r.FI.Decl.Body.List[0]
+	whead := loopHead(fn, r.WLoop)
+	// `for ord := range replicas`: every index of the wanted slice, by construction
+	if rl, isRange := outer.(*ast.RangeStmt); isRange {
+		rid, okRoot := ast.Unparen(rl.X).(*ast.Ident)
+		ord, okKey := rl.Key.(*ast.Ident)
+		if !okRoot || info.ObjectOf(rid) != r.W || !okKey || ord.Name == "_" || len(rl.Body.List) == 0 {
+			c.Unk(rule, name, store.Pos(), "the fill loop ranges over something other than the whole wanted slice by index")
+			return
+		}
+		aU := fn.FromUntil(entry, gf.TrueState(), rl.Body.List[0])
+		// (reaching the wanted loop with the fill loop's body never entered is fine only for an empty wanted slice: the range is unconditional)
+		top := topIndex(r.FI.Decl.Body, rl)
+		c.Check(top >= 0 && r.FI.Decl.Body.List[top] == ast.Stmt(rl) && whead != nil, rule, name+": always run", rl.Pos(), "an unconditional range over the wanted slice before the wanted loop",
+			"the fill loop is nested in a condition: vacant desired ordinals can stay empty")
+		_ = aU
+		c.OK(rule, name+": walk", rl.Pos(), "range over every index of the wanted slice")
+		start := rl.Body.List[0]
+		vac := c.Want(fn, rl.Body.Pos(), "$1[$2] == nil && !$3.Has(int32($2))", &ast.Ident{Name: r.W.Name()}, ord, r.Slots)
+		aF := fn.FromUntil(start, an.StateBefore(start).Assume(vac), store)
+		h := loopHead(fn, rl)
+		c.Check(h != nil && !aF.BlockReached(h), rule, name+": every empty desired cell", store.Pos(), "an iteration for a vacant desired ordinal does not end without the store",
+			"an iteration for a vacant desired ordinal can end without a pod object being stored: nothing is created there")
+		return
+	}
+	loop, _ := outer.(*ast.ForStmt)
+	if loop == nil {
+		c.Unk(rule, name, store.Pos(), "the fill store is not in a loop")
+		return
+	}
+	// (a) passed on every path to the wanted loop
+	var first ast.Node = loop
+	if loop.Init != nil {
+		first = loop.Init
+	}
+	aU := fn.FromUntil(entry, gf.TrueState(), first)
+	c.Check(whead != nil && !aU.BlockReached(whead), rule, name+": always run", loop.Pos(), "the wanted loop is reached only through the fill loop",
+		"the wanted loop can be reached without the fill loop having run: vacant desired ordinals stay empty and no pod is created for them in this reconcile")
+	// (b) the walk
+	okWalk := false
+	var ord *ast.Ident
+	if init, ok := loop.Init.(*ast.AssignStmt); ok && len(init.Lhs) == 1 && len(init.Rhs) == 1 {
+		ord, _ = init.Lhs[0].(*ast.Ident)
+		if ord != nil && fn.Term(init.Rhs[0]).Key() == gf.ConstInt(0).Key() && loop.Cond != nil && r.Bound != nil {
+			want := c.Want(fn, loop.Body.Pos(), "$1 < $2", ord, r.Bound)
+			if inc, ok := loop.Post.(*ast.IncDecStmt); ok && inc.Tok == token.INC && fn.Term(inc.X).Key() == fn.Term(ord).Key() && fn.Formula(loop.Cond).Key() == want.Key() {
+				okWalk = true
+			}
+		}
+	}
+	c.Check(okWalk, rule, name+": walk", loop.Pos(), "ord = 0; ord < bound; ord++", "the fill loop does not walk every ordinal below the bound")
+	// (c) an empty non-slot cell is filled
+	if ord != nil && len(loop.Body.List) > 0 {
+		start := loop.Body.List[0]
+		vac := c.Want(fn, loop.Body.Pos(), "$1[$2] == nil && !$3.Has(int32($2))", &ast.Ident{Name: r.W.Name()}, ord, r.Slots)
+		aF := fn.FromUntil(start, an.StateBefore(start).Assume(vac), store)
+		post := loopBlock(fn, loop, cfg.KindForPost)
+		reached := post != nil && aF.BlockReached(post)
+		if post == nil {
+			if h := loopHead(fn, loop); h != nil {
+				reached = aF.BlockReached(h)
+			}
+		}
+		c.Check(!reached, rule, name+": every empty desired cell", store.Pos(), "an iteration for a vacant desired ordinal does not end without the store",
+			"an iteration for a vacant desired ordinal can end without a pod object being stored: nothing is created there")
 	}
 }
